@@ -8,7 +8,8 @@ def units():
 
 
 def extra(tier, seed):
-    return [run_gen("fixes.align_variable_names_with_convention/rename-guards", ("C19",), c_rename.gen_blacklist, tier == "thorough")]
+    return [run_gen("fixes.align_variable_names_with_convention/rename-guards", ("C19",), c_rename.gen_blacklist, tier == "thorough"),
+            run_gen("renaming-rules/refusals", ("C19",), c_rename.gen_refusals, tier == "thorough")]
 
 
 def standins(tier, seed):
@@ -22,7 +23,10 @@ META = {
                    "keywords, the imported and the defined names and the filter that applies it is present; the all-or-nothing / "
                    "free-name guard of align_variable_names_with_convention is a disjunction containing each of the eight refusal "
                    "conditions (structure obligations on the real AST); renamed names are never in the preserve set (guard unit shared "
-                   "with C07/C08). Use-site discovery and Python's scoping are beyond the contracts here. "
+                   "with C07/C08); each of the four renaming rules (the real function) leaves the binding alone on 25 representative modules, one per reason a "
+                   "name or its new name can mean something else (parameter, local, exception name, import, global declaration, second definition, builtin, "
+                   "class-body reference, match-class keyword, different outer names in 'duplicate' bodies), with a control per rule showing that it does act. "
+                   "Use-site discovery and Python's scoping are beyond the contracts here. "
                    "Bounded part: name construction exhaustively for all identifiers of length <= 5 over a 4-letter alphabet "
                    "(result is an identifier); programs built from 28 binding-form frames x adversarial identifier triples executed "
                    "before and after every renaming rule and format_code (same output, same exception, compiles, no new builtin binding); "
